@@ -120,6 +120,32 @@ pub fn vertex_shapes(thorough: bool, o: (i32, i32), rng: &mut Rng) -> Vec<Value>
         let off = if n % 4 == 0 { json!([rng.i32(-3, 3), rng.i32(-3, 3)]) } else { json!([0, 0]) };
         v.push(json!({"k":"polyline","v":pts,"off":off}));
     }
+    // closed polylines (first vertex == last vertex, >= 4 entries): every closing corner of a small grid incl. very
+    // acute ones, triangles and quadrilaterals, both orientations
+    {
+        let gs: [(i32, i32); 9] = [(0, 0), (4, 0), (8, 1), (0, 4), (5, 5), (9, 4), (1, 8), (4, 9), (8, 8)];
+        let mut n = 0usize;
+        for a in 0..gs.len() {
+            for b in 0..gs.len() {
+                for c in 0..gs.len() {
+                    if a == b || b == c || a == c {
+                        continue;
+                    }
+                    n += 1;
+                    if !thorough && n % 4 != 0 {
+                        continue;
+                    }
+                    let p = |k: usize| json!([ox + gs[k].0, oy + gs[k].1]);
+                    let mut pts = vec![p(a), p(b), p(c)];
+                    if n % 3 == 0 {
+                        pts.push(p((a + b + c) % gs.len()));
+                    }
+                    pts.push(p(a));
+                    v.push(json!({"k":"polyline","v":pts,"off":if n % 5 == 0 { json!([2, -3]) } else { json!([0, 0]) }}));
+                }
+            }
+        }
+    }
     let ds: Vec<u32> = if thorough { (0..=12).chain([15, 16, 23, 24]).collect() } else { vec![0, 1, 2, 3, 4, 5, 6, 7, 8, 15, 16] };
     let sweeps = [-400, -360, -225, -90, -30, 0, 45, 135, 200, 360];
     for &d in &ds {
@@ -224,6 +250,17 @@ pub fn images(ct: &str, thorough: bool, rng: &mut Rng, pos: (i32, i32)) -> Vec<V
 /// restricted to solid strokes: C02, C04, C07, C08).  Every `every`-th eligible descriptor gets a copy.
 pub fn add_dotted(v: &mut Vec<Value>, every: usize) {
     let mut extra = vec![];
+    // dotted rectangles that are 1 or 2 pixels thin (the dot size is clamped to the thickness of the stroke area),
+    // odd and even lengths, every alignment and a few widths
+    for (k, (w, h)) in [(1u32, 1u32), (2, 1), (5, 1), (6, 1), (1, 2), (1, 7), (1, 8), (2, 2), (7, 2), (2, 6), (3, 3), (8, 3)].iter().enumerate() {
+        for al in 0..3u32 {
+            for sw in [1u32, 2, 3] {
+                let mut st = crate::shapes::style_desc(if (k + al as usize) % 2 == 0 { 1 } else { -1 }, 0, sw, al);
+                st["dot"] = json!(1);
+                extra.push(json!({"kind":"prim","shape":{"k":"rect","r":[3 - k as i32, k as i32 - 4, w, h]},"style":st}));
+            }
+        }
+    }
     let mut n = 0usize;
     for d in v.iter() {
         if d["kind"] == "prim" && d["style"]["stroke"].as_i64().unwrap_or(-1) >= 0 && d["style"]["w"].as_u64().unwrap_or(0) >= 1 {
@@ -252,7 +289,10 @@ pub const TEXT_FONTS: [&str; 6] = [
 
 pub fn text_strings() -> Vec<&'static str> {
     // incl. whitespace-only lines (first, last, widest) and a tab (drawn as the replacement glyph)
-    vec!["", "A", "gj|", "ab\ncd", "x\n\nyz", "Hi\r\nq", "a\u{2603}b", "line\n", "Hi\n   ", "  \nHi", "a\n     \nb", " \t"]
+    // ... zero-width and other invisible code points (they are ordinary unmapped characters: one cell each), NUL, DEL,
+    // a lone CR, combining marks, non-BMP
+    vec!["", "A", "gj|", "ab\ncd", "x\n\nyz", "Hi\r\nq", "a\u{2603}b", "line\n", "Hi\n   ", "  \nHi", "a\n     \nb", " \t",
+         "\u{FEFF}Hel", "ab\u{200B}cd\u{200D}", "x\u{2060}\u{200C}y\nz", "a\0b\u{7f}", "q\re", "e\u{301}\u{1F600}o", "\u{a0}\u{ad}|"]
 }
 
 /// Text drawables; `full` = all colour/decoration combinations instead of eight.
